@@ -270,6 +270,22 @@ func c18Run(sc qScenario) (vs []ev.V) {
 			vs = append(vs, ev.Vf(sig, "%s: Final-Recipient values %v, recipients that failed terminally in that attempt (as the sender wrote them) %v", where, got, exp))
 		}
 		for _, g := range p.Groups {
+			// well-formedness of the per-recipient group: a message/delivery-status part is 7-bit (RFC 3464),
+			// an address of type rfc822 is ASCII (IDN domains as A-labels); UTF-8 needs message/global-delivery-status and type utf-8 (RFC 6533)
+			nonASCII := func(s string) bool {
+				for i := 0; i < len(s); i++ {
+					if s[i] >= 0x80 {
+						return true
+					}
+				}
+				return false
+			}
+			if strings.HasPrefix(strings.ToLower(strings.TrimSpace(g.FinalRcpt)), "rfc822;") && nonASCII(g.FinalRcpt) {
+				vs = append(vs, ev.Vf("report:rfc822-recipient-not-ascii", "%s: Final-Recipient %q has address type rfc822 but is not ASCII (part type %s)", where, g.FinalRcpt, p.PartTypes[1]))
+			}
+			if p.PartTypes[1] == "message/delivery-status" && (nonASCII(g.FinalRcpt) || nonASCII(g.Diag) || nonASCII(g.Status)) {
+				vs = append(vs, ev.Vf("report:8bit-in-delivery-status", "%s: the message/delivery-status part holds non-ASCII data: Final-Recipient %q Diagnostic-Code %q", where, g.FinalRcpt, g.Diag))
+			}
 			if !strings.EqualFold(g.Action, "failed") {
 				vs = append(vs, ev.Vf("report:action", "%s: Action %q for %s", where, g.Action, g.FinalRcpt))
 			}
